@@ -211,20 +211,20 @@ def _gen_free(rng, tier):
             lines.append([3, i, -1, 2, v0 + rng.choice([-1000, 0, 5000, 12000])])
         else:
             lines.append([3, i, -1, 3, rng.choice([1, 3000, 9000])])
+        # (every default re-arm is at least a few ms away: a free-running chain of tiny steps would run for
+        #  span/step cycles in real time)
         r = rng.random()
-        if r < 0.45:
-            lines.append([3, i, -2, 1, rng.choice([1, 2, 3000, 8000, 20000])])
-        elif r < 0.65:
-            lines.append([3, i, -2, 3, rng.choice([1, 50, 4000, 10000])])
-        elif r < 0.8:
-            lines.append([3, i, -2, 2, v0 + rng.randint(-2000, span)])
+        if r < 0.5:
+            lines.append([3, i, -2, 1, rng.choice([3000, 8000, 20000])])
+        elif r < 0.75:
+            lines.append([3, i, -2, 3, rng.choice([4000, 10000])])
         if rng.random() < 0.3:
             lines.append([3, i, -2, 6, rng.choice([200, 1500, 6000])])
         for k in range(rng.randint(0, 2)):
             if rng.random() < 0.5:
                 r = rng.random()
                 if r < 0.4:
-                    lines.append([3, i, k, 1, rng.choice([-5, 0, 1, 2500, 9000])])
+                    lines.append([3, i, k, 1, rng.choice([-5, 0, 1, 2, 2500, 9000])])
                 elif r < 0.7:
                     lines.append([3, i, k, 2, v0 + rng.randint(-3000, span)])
                 elif r < 0.85:
@@ -435,8 +435,7 @@ def _oracle_hook(d, out):
                 if w < wall:
                     fails.append(("harness_clock", "clock went back"))
                 wall = max(wall, w)
-            wl = ws[-1] if ws else wall
-            _sched_rule(fails, started, now, kind, arg, eff, wl, wl)
+            _sched_rule(fails, started, now, kind, arg, eff, ws[0] if ws else wall, ws[-1] if ws else wall)
             if kind == 3 and n == 2 and eff != 0:
                 # exact: when = max(now, w1) + arg checked against w2
                 when = max(now, w1) + arg
